@@ -497,6 +497,17 @@ fn clock_time(ctx: &mut Ctx) {
 					if b != t {
 						return Some("Add<u64> then Sub<u64> does not return the original".into());
 					}
+					// the compound operators agree with the binary ones
+					let mut s2 = t;
+					s2 += k;
+					if s2 != s {
+						return Some("AddAssign<u64> differs from Add<u64>".into());
+					}
+					let mut b2 = s;
+					b2 -= k;
+					if b2 != b {
+						return Some("SubAssign<u64> differs from Sub<u64>".into());
+					}
 				}
 				3 => {
 					// sub u64 larger than ticks must not wrap below zero
@@ -508,6 +519,11 @@ fn clock_time(ctx: &mut Ctx) {
 						let s = t - k;
 						if s.ticks > t.ticks {
 							return Some(format!("ClockTime{{ticks:{}}} - {}u64 wrapped to ticks {}", t.ticks, k, s.ticks));
+						}
+						let mut s2 = t;
+						s2 -= k;
+						if s2 != s {
+							return Some(format!("ClockTime{{ticks:{}}} -= {}u64 gives ticks {} but - gives {} (compound subtraction must saturate like the binary one)", t.ticks, k, s2.ticks, s.ticks));
 						}
 					}
 				}
